@@ -165,7 +165,13 @@ theorem flush_fold (hr : RecOk S g r) (hnd : allDistinct (d.fields.map (·.name)
     obtain ⟨hdnone, hdk⟩ := hdisc dnf hdnf hdn
     have hl : lookupField d.fields c.field = some dnf := by
       rw [hcf, ← hdn]; exact lookupField_of_mem hnd hdnf
-    obtain ⟨a, hda, hch⟩ := cond_disc hc hl hdk (hadm m hum.mem).1 hp
+    obtain ⟨a, pd, hda, hch, hpd⟩ := cond_disc hc hl hdk (hadm m hum.mem).1 hp
+    have hpd' : pd = p := by
+      rcases hpd with h | ⟨-, -, hbar, -⟩
+      · exact h
+      · obtain ⟨t', hk', -⟩ := hum.kind
+        simp [hk', FK.isBarray] at hbar
+    rw [hpd'] at hch
     have hv0 := disc_entry hl hdnone he0 hda
     subst hv0
     have hce : condOnEnv env c = .ok p := by
@@ -185,7 +191,7 @@ theorem flush_fold (hr : RecOk S g r) (hnd : allDistinct (d.fields.map (·.name)
       simp only [bind, Except.bind]
       obtain ⟨ents, hf, hrel⟩ := ih (env ++ [(m.name, Val.none)]) t (fun x hx => hu x (by simp [hx])) ht
         (get_append_some hget)
-      refine ⟨(m.name, Val.none) :: ents, ?_, .cons (entry_absent hc (hadm m hum.mem).1 hp) hrel⟩
+      refine ⟨(m.name, Val.none) :: ents, ?_, .cons (entry_absent hc (hadm m hum.mem).1 hp hda hch) hrel⟩
       rw [hf]
       simp
     | true =>
